@@ -114,7 +114,9 @@ def tail(path, n=3000):
 
 
 def safe(s):
-    return re.sub(r"[^A-Za-z0-9_.=-]+", "_", s)[:150]
+    import hashlib
+    h = hashlib.sha1(s.encode()).hexdigest()[:6]
+    return re.sub(r"[^A-Za-z0-9_.=-]+", "_", s)[:120] + "-" + h
 
 
 def main(argv=None):
